@@ -82,7 +82,10 @@ def fq_abs(o):
 
 def coeff_abs(c, K):
     if isinstance(c, Obj):
-        return fq_abs(c)
+        n = fq_abs(c)
+        if isinstance(n, int) and not isinstance(n, bool) and K is not None:
+            return K(n)
+        return n
     if isinstance(c, Fld):
         return c
     if isinstance(c, int) and not isinstance(c, bool):
